@@ -118,7 +118,33 @@ def discharge(ob: Obligation, timeout_ms: int, use_cvc5=False):
         if c == "sat":
             res["status"] = "solver-disagreement"
     res["time_s"] = time.time() - t0
+    if res["status"] == "refuted" and _weak_theory(ob):
+        # the premises hold only ground instances of the axioms of an abstraction (injective flattening ...):
+        # a counter-model of the weakened theory is not a counter-example of the obligation by itself
+        res["weak_theory"] = True
     return res
+
+
+def _weak_theory(ob):
+    from .arrays import INJECTIVE
+
+    if ob.info.get("ratnf_rules") or ob.info.get("weak_theory"):
+        return True
+    if not INJECTIVE:
+        return False
+    seen, stack = set(), [ob.claim, *ob.premises]
+    while stack:
+        t = stack.pop()
+        if t.get_id() in seen:
+            continue
+        seen.add(t.get_id())
+        if z3.is_app(t):
+            if t.decl().name() in INJECTIVE:
+                return True
+            stack.extend(t.children())
+        elif z3.is_quantifier(t):
+            stack.append(t.body())
+    return False
 
 
 def _model_refutes(m, ob):
@@ -265,6 +291,8 @@ def _run_unit(args):
                     pass
             if r.get("reason"):
                 rec["reason"] = r["reason"]
+            if r.get("weak_theory"):
+                rec["weak_theory"] = True
             out["results"].append(rec)
         out["functions"] = ur.functions
         out["dropped"] = sorted(ur.dropped)
